@@ -734,12 +734,55 @@ where
         return "bad-case".into();
     }
     let out = w.log.lock().unwrap().join(";");
-    let fails = w.fails.lock().unwrap();
+    let mut fails = w.fails.lock().unwrap().clone();
+    fails.extend(marker_probe().iter().map(|m| m.to_string()));
     if fails.is_empty() {
         out
     } else {
         format!("{}\tFAIL:{}", out, fails.join("|"))
     }
+}
+
+/// What the model ASSUMES of the types, observed at run time: an `EnterGuard` cannot be sent to another thread (so
+/// "leaving a frame" — the guard's drop — always runs on the thread that entered it; the LTS has no label for an exit
+/// on a different thread than the enter), while a `Frame` over a `Send` frame CAN be moved (`moved_frame_carries_view`).
+/// The probe resolves to the inherent method exactly when the bound holds, so it compiles either way.
+fn marker_probe() -> Vec<&'static str> {
+    use emit::platform::thread_local_ctxt::ThreadLocalCtxt;
+    struct Probe<T: ?Sized>(std::marker::PhantomData<T>);
+    impl<T: ?Sized + Send> Probe<T> {
+        fn is_send(&self) -> bool {
+            true
+        }
+    }
+    impl<T: ?Sized + Sync> Probe<T> {
+        fn is_sync(&self) -> bool {
+            true
+        }
+    }
+    trait Fallback {
+        fn is_send(&self) -> bool {
+            false
+        }
+        fn is_sync(&self) -> bool {
+            false
+        }
+    }
+    impl<T: ?Sized> Fallback for Probe<T> {}
+    let mut out = Vec::new();
+    if Probe::<emit::frame::EnterGuard<'static, ThreadLocalCtxt>>(std::marker::PhantomData).is_send() {
+        out.push("enter-guard-is-Send(exit-may-run-on-another-thread)");
+    }
+    if Probe::<emit::frame::EnterGuard<'static, &'static ThreadLocalCtxt>>(std::marker::PhantomData).is_send() {
+        out.push("enter-guard-is-Send(exit-may-run-on-another-thread)");
+    }
+    if !Probe::<emit::Frame<ThreadLocalCtxt>>(std::marker::PhantomData).is_send() {
+        out.push("frame-is-not-Send(cannot-be-moved-to-another-thread)");
+    }
+    if !Probe::<ThreadLocalCtxt>(std::marker::PhantomData).is_sync() {
+        out.push("thread-local-ctxt-is-not-Sync");
+    }
+    out
 }
 
 /// A `Ctxt` whose frames are too big for `ErasedFrame`'s inline storage (so `dyn ErasedCtxt` boxes them); everything
